@@ -1,0 +1,36 @@
+//go:build verif
+
+package controller
+
+// Contracts for the verification framework in /verif (comment-only file, build tag `verif`).
+
+// ---- C11: schedule bindings of one hook -------------------------------------------------
+
+// number of links with the given crontab among the first i keys produced by the iteration
+//@ specfn nMatch(links map[string]*ScheduleBindingToCrontabLink, keys map[int]string, crontab string, i int) int
+//@   axiom i <= 0 ==> result == 0
+//@   axiom i > 0 ==> result == nMatch(links, keys, crontab, i-1) + ite(links[keys[i-1]].Crontab == crontab, 1, 0)
+
+// the execution info produced for a schedule link carries exactly the link's fields
+//@ pred InfoOf(info BindingExecutionInfo, link *ScheduleBindingToCrontabLink) := info.Binding == link.BindingName && info.Group == link.Group
+//@     && info.AllowFailure == link.AllowFailure && info.QueueName == link.QueueName && info.IncludeSnapshots == link.IncludeSnapshots
+//@     && len(info.BindingContext) == 1 && info.BindingContext[0].Binding == link.BindingName
+//@     && info.BindingContext[0].Metadata.BindingType == htypes.Schedule && info.BindingContext[0].Metadata.Group == link.Group
+//@     && info.BindingContext[0].Metadata.IncludeSnapshots == link.IncludeSnapshots
+
+// C11: one execution info for every link with that crontab, each carrying the link's fields; none for other links.
+//@ func (*scheduleBindingsController).HandleEvent
+//@   prop C11
+//@   requires forall(k, string, has(c.ScheduleLinks, k) ==> c.ScheduleLinks[k] != nil)
+//@   modifies nothing
+//@   ensures [count]         len(result) == nMatch(c.ScheduleLinks, keyseq(), crontab, nvisited())
+//@   ensures [all-visited]   forall(k, string, has(c.ScheduleLinks, k) ==> visited(k))
+//@   ensures [only-matching] forall(j, 0, len(result), exists(k, string, has(c.ScheduleLinks, k) && c.ScheduleLinks[k].Crontab == crontab && InfoOf(result[j], c.ScheduleLinks[k])))
+//@   ensures [each-link]     forall(k, string, has(c.ScheduleLinks, k) && c.ScheduleLinks[k].Crontab == crontab ==> exists(j, 0, len(result), InfoOf(result[j], c.ScheduleLinks[k])))
+//@   loop 1
+//@     invariant 0 <= nvisited() && fresh(res)
+//@     invariant len(res) == nMatch(c.ScheduleLinks, keyseq(), crontab, nvisited())
+//@     invariant forall(t, 0, nvisited(), 0 <= nMatch(c.ScheduleLinks, keyseq(), crontab, t)
+//@        && nMatch(c.ScheduleLinks, keyseq(), crontab, t) + ite(c.ScheduleLinks[keyseq()[t]].Crontab == crontab, 1, 0) <= nMatch(c.ScheduleLinks, keyseq(), crontab, nvisited()))
+//@     invariant forall(t, 0, nvisited(), has(c.ScheduleLinks, keyseq()[t]) && (c.ScheduleLinks[keyseq()[t]].Crontab == crontab ==> InfoOf(res[nMatch(c.ScheduleLinks, keyseq(), crontab, t)], c.ScheduleLinks[keyseq()[t]])))
+//@     invariant forall(j, 0, len(res), exists(k, string, has(c.ScheduleLinks, k) && c.ScheduleLinks[k].Crontab == crontab && InfoOf(res[j], c.ScheduleLinks[k])))
